@@ -7,14 +7,14 @@ use crate::evidence::Report;
 use serde_json::json;
 
 const RK: [(&str, &str); 6] = [
-    ("PASSING", "rule p { a exists }\n"),
-    ("FAILING", "rule f { a == 1 }\n"),
+    ("PASSING", "rule p when a exists { a exists }\n"),
+    ("FAILING", "rule f when a exists { a == 1 }\n"),
     ("SKIPPING", "rule s when z exists { a == 1 }\n"),
     ("BROKEN", "rule b { a == }\n"),
     ("EMPTY", "# only a comment\n"),
     ("ERRORING", "rule e { a empty }\n"),
 ];
-const DK: [(&str, &str); 4] = [("COMPLIANT", "{\"a\": 1}\n"), ("NONCOMPLIANT", "{\"a\": 2}\n"), ("MALFORMED", "{\"a\": [1,\n"), ("EMPTY", "")];
+const DK: [(&str, &str); 5] = [("COMPLIANT", "{\"a\": 1}\n"), ("NONCOMPLIANT", "{\"a\": 2}\n"), ("MALFORMED", "{\"a\": [1,\n"), ("EMPTY", ""), ("INAPPLICABLE", "{\"q\": 1}\n")];
 
 #[derive(Clone, Copy, Debug, PartialEq)]
 pub enum Mode {
@@ -76,7 +76,8 @@ pub fn allowed_exit(rules: &[usize], data: &[usize], mode: Mode) -> Allowed {
     if data.iter().any(|d| DK[*d].0 == "MALFORMED" || DK[*d].0 == "EMPTY") {
         return Allowed::ErrorExit;
     }
-    if rules.iter().any(|r| RK[*r].0 == "ERRORING") {
+    // `a empty` is undefined on a number: an evaluation error whenever some document carries a numeric `a`
+    if rules.iter().any(|r| RK[*r].0 == "ERRORING") && data.iter().any(|d| DK[*d].0 == "COMPLIANT" || DK[*d].0 == "NONCOMPLIANT") {
         return Allowed::ErrorExit;
     }
     let pe = rules.iter().any(|r| RK[*r].0 == "BROKEN");
@@ -265,7 +266,7 @@ const TFILES: [(&str, &str); 5] = [
 ];
 const TFMT: [&str; 5] = ["plain", "plain-v", "json", "yaml", "junit"];
 
-#[derive(Debug, Clone, PartialEq)]
+#[derive(Debug, Clone, Copy, PartialEq)]
 enum TAllowed {
     Zero,
     Seven,
@@ -311,13 +312,25 @@ pub fn run(tier: &str) -> i32 {
     let thorough = tier == "thorough";
     let mut rep = Report::new("C06", tier);
     let rs = seqs(RK.len(), 3);
-    let ds = seqs(DK.len(), if thorough { 3 } else { 2 });
+    let ds = seqs(DK.len(), 3);
     let mut cases: Vec<(usize, usize, Mode)> = vec![];
-    for (ri, _) in rs.iter().enumerate() {
+    for (ri, r) in rs.iter().enumerate() {
         for (di, d) in ds.iter().enumerate() {
             for m in MODES {
                 if m == Mode::StdinData && d.len() != 1 {
                     continue;
+                }
+                // quick: everything up to 2 x 2; 3 rules files or 3 data files only in the three main modes
+                if !thorough && (r.len() > 2 || d.len() > 2) {
+                    if r.len() > 2 && d.len() > 2 {
+                        continue;
+                    }
+                    if !matches!(m, Mode::Plain | Mode::StructJson | Mode::PayloadPlain) {
+                        continue;
+                    }
+                    if d.len() > 2 && r.len() > 1 {
+                        continue;
+                    }
                 }
                 cases.push((ri, di, m));
             }
@@ -416,6 +429,61 @@ pub fn run(tier: &str) -> i32 {
     acc = Acc::merge(acc, tr.acc);
     rep.extra.insert("test_cases".into(), json!(tcases.len()));
 
+    // --dir with two rules files, each with its own test file: every ordered pair of (rules kind, test-file kind)
+    let mut dcases = vec![];
+    for r1 in 0..TRULES.len() {
+        for f1 in 0..TFILES.len() {
+            for r2 in 0..TRULES.len() {
+                for f2 in 0..TFILES.len() {
+                    for fmt in TFMT {
+                        dcases.push((r1, f1, r2, f2, fmt));
+                    }
+                }
+            }
+        }
+    }
+    let dr = crate::par::run(dcases.len(), 0, None, Acc::new, |k, acc| {
+        let (r1, f1, r2, f2, fmt) = dcases[k];
+        let tag = format!("td_{}_{}_{}_{}", r1, f1, r2, f2);
+        let base = workdir().join(&tag);
+        if !base.exists() {
+            put(&format!("{}/x.guard", tag), TRULES[r1].1);
+            put(&format!("{}/tests/x_t.yaml", tag), TFILES[f1].1);
+            put(&format!("{}/y.guard", tag), TRULES[r2].1);
+            put(&format!("{}/tests/y_t.yaml", tag), TFILES[f2].1);
+        }
+        let mut argv = sv(&["test", "--dir"]);
+        argv.push(base.to_string_lossy().to_string());
+        match fmt {
+            "plain" => {}
+            "plain-v" => argv.push("-v".into()),
+            f => argv.extend(sv(&["-o", f])),
+        }
+        let wa = test_allowed(r1, &[f1]);
+        let wb = test_allowed(r2, &[f2]);
+        let want = if wa == TAllowed::NonZero || wb == TAllowed::NonZero {
+            TAllowed::NonZero
+        } else if wa == TAllowed::Seven || wb == TAllowed::Seven {
+            TAllowed::Seven
+        } else {
+            TAllowed::Zero
+        };
+        let o = cli_inproc(&argv, "");
+        acc.traces += 1;
+        let st = o.status();
+        *acc.outcomes.entry(format!("test-exit-{}", st)).or_insert(0) += 1;
+        let ok = match want {
+            TAllowed::Zero => st == 0,
+            TAllowed::Seven => st == 7,
+            TAllowed::NonZero => st != 0 && st != 101,
+        };
+        if !ok || o.panic.is_some() {
+            acc.violate(&format!("test-dir-two-files:{}:want-{:?}:got-{}", fmt, want, st), format!("test --dir with x.guard={} x_t={} y.guard={} y_t={} fmt={} exits {} (want {:?})", TRULES[r1].0, TFILES[f1].0, TRULES[r2].0, TFILES[f2].0, fmt, st, want), json!({"kind":"cli","argv":argv,"stdin":"","files":{"x.guard":TRULES[r1].1,"tests/x_t.yaml":TFILES[f1].1,"y.guard":TRULES[r2].1,"tests/y_t.yaml":TFILES[f2].1},"expected":format!("{:?}", want),"observed":format!("exit {}", st)}));
+        }
+    }, Acc::merge);
+    rep.states += dcases.len() as u64;
+    rep.transitions += dcases.len() as u64;
+    acc = Acc::merge(acc, dr.acc);
     rep.distinct_nontrivial = (rs.len() * ds.len()) as u64;
     rep.samples.push(json!({"rules": ["FAILING", "BROKEN"], "data": ["NONCOMPLIANT"], "mode": "StructJson", "allowed": "{5,19}"}));
     rep.samples.push(json!({"rules_kinds": RK.iter().map(|k| json!({"kind":k.0,"text":k.1})).collect::<Vec<_>>(), "data_kinds": DK.iter().map(|k| json!({"kind":k.0,"text":k.1})).collect::<Vec<_>>()}));
